@@ -5,6 +5,7 @@
 mod cache_ops;
 mod engine_hist;
 mod prefilter;
+mod race;
 
 use kvh::rng::Rng;
 use serde_json::json;
@@ -103,6 +104,12 @@ fn main() {
                 let r = engine_hist::replay(&cv);
                 summary.insert("E".into(), r);
             }
+            "R" => {
+                // schedule dependent: re-run the whole stream with the recorded seed and round count
+                let rounds = cv["rounds"].as_u64().unwrap_or(50) as usize;
+                let seed = cv["seed"].as_u64().unwrap_or(1);
+                summary.insert("R".into(), race::run_stream(&out, rounds.max(50) * 4, seed));
+            }
             "B" => {
                 let r = prefilter::replay(&cv);
                 summary.insert("B".into(), r);
@@ -158,6 +165,9 @@ fn main() {
         let mut re = rng.fork(4);
         let s = engine_hist::run_stream((n / 10).max(50), &mut re);
         summary.insert("E".into(), s);
+        // R: searcher thread vs writer on a persistent engine (store-after-invalidate clause)
+        let seed = std::env::var("VERIF_SEED").ok().and_then(|s| s.parse::<u64>().ok()).unwrap_or(1);
+        summary.insert("R".into(), race::run_stream(&out, (n / 10).max(50), seed));
         // saturation probe
         let (t, s) = cache_ops::saturation_probe();
         shards.push(("P".into(), t));
